@@ -76,8 +76,66 @@ func discoverAccessors(r *Run, ppkg, tpkg *packages.Package) *eofAccessors {
 		b, ok := t.Underlying().(*types.Basic)
 		return ok && b.Kind() == types.Bool
 	}
+	// the cursor may live in a small struct that Parser embeds: its methods are Parser's accessors too
+	owners := map[string]bool{"Parser": true}
+	if pst, ok := parserT.Underlying().(*types.Struct); ok {
+		for i := 0; i < pst.NumFields(); i++ {
+			f := pst.Field(i)
+			if !f.Embedded() {
+				continue
+			}
+			t := f.Type()
+			if pt, ok := t.(*types.Pointer); ok {
+				t = pt.Elem()
+			}
+			if nt := namedOf(t); nt != nil && nt.Obj().Pkg() == ppkg.Types {
+				if est, ok := nt.Underlying().(*types.Struct); ok {
+					for j := 0; j < est.NumFields(); j++ {
+						if est.Field(j) == fPos || est.Field(j) == fTok {
+							owners[nt.Obj().Name()] = true
+						}
+					}
+				}
+			}
+		}
+	}
+	// what an accessor reads/writes includes what the accessors it delegates to read/write (current() = peek(0))
+	type rw struct{ readsPos, readsTok, writesPos, onlyIncr bool }
+	direct := map[*types.Func]rw{}
+	callsOwn := map[*types.Func][]*types.Func{}
 	for _, fd := range funcDecls(ppkg) {
-		if recvTypeName(fd) != "Parser" {
+		if !owners[recvTypeName(fd)] {
+			continue
+		}
+		fn, _ := info.Defs[fd.Name].(*types.Func)
+		if fn == nil {
+			continue
+		}
+		x := rw{onlyIncr: true}
+		ast.Inspect(fd.Body, func(n ast.Node) bool {
+			switch y := n.(type) {
+			case *ast.SelectorExpr:
+				if sl, ok := info.Selections[y]; ok {
+					if sl.Obj() == fPos {
+						x.readsPos = true
+					}
+					if sl.Obj() == fTok {
+						x.readsTok = true
+					}
+				}
+			case *ast.CallExpr:
+				if cal, ok := calleeOf(info, y).(*types.Func); ok && cal != fn {
+					if cd := declOf(ppkg, cal); cd != nil && owners[recvTypeName(cd)] {
+						callsOwn[fn] = append(callsOwn[fn], cal)
+					}
+				}
+			}
+			return true
+		})
+		direct[fn] = x
+	}
+	for _, fd := range funcDecls(ppkg) {
+		if !owners[recvTypeName(fd)] {
 			continue
 		}
 		fn, _ := info.Defs[fd.Name].(*types.Func)
@@ -85,6 +143,13 @@ func discoverAccessors(r *Run, ppkg, tpkg *packages.Package) *eofAccessors {
 			continue
 		}
 		readsPos, readsTok, writesPos := false, false, false
+		for _, cal := range callsOwn[fn] {
+			// read-only delegation (one level): a read-only accessor built on read-only accessors
+			if d := direct[cal]; d.readsPos || d.readsTok {
+				readsPos = readsPos || d.readsPos
+				readsTok = readsTok || d.readsTok
+			}
+		}
 		onlyIncr := true
 		nstmts := 0
 		ast.Inspect(fd.Body, func(n ast.Node) bool {
